@@ -99,12 +99,12 @@ func (p *pp) handleSpecialValues(
 	case safeWrapperType:
 		handled = true
 		defer p.startSafeOverride().restore()
-		p.printValue(value.Field(0), verb, depth+1)
+		p.printWrapped(value, verb, depth)
 
 	case unsafeWrapperType:
 		handled = true
 		defer p.startUnsafeOverride().restore()
-		p.printValue(value.Field(0), verb, depth+1)
+		p.printWrapped(value, verb, depth)
 
 	case redactableStringType:
 		handled = true
@@ -118,6 +118,32 @@ func (p *pp) handleSpecialValues(
 	}
 
 	return handled
+}
+
+// printWrapped prints the value held by a Safe()/Unsafe() wrapper that
+// was reached through reflection (inside a container, or passed as a
+// reflect.Value). The content is extracted with GetValue() so that it
+// prints like the same value in the same position without the wrapper,
+// including through its own formatting methods. Only when the wrapper
+// sits in an unexported field is its content printed structurally, as
+// fmt does for everything in such fields.
+func (p *pp) printWrapped(value reflect.Value, verb rune, depth int) {
+	if !value.CanInterface() {
+		p.printValue(value.Field(0), verb, depth+1)
+		return
+	}
+	inner := value.Interface().(interface{ GetValue() interface{} }).GetValue()
+	if depth == 0 {
+		p.printArg(inner, verb)
+		return
+	}
+	if inner == nil {
+		// Print the nil interface value itself, so that it renders like
+		// any other nil interface in this position (e.g. under %#v).
+		p.printValue(value.Field(0), verb, depth+1)
+		return
+	}
+	p.printValue(reflect.ValueOf(inner), verb, depth)
 }
 
 // Sprintfn produces a RedactableString using the provided
